@@ -225,6 +225,17 @@ def check(ctx):
             o.rule = "C08.e/" + o.rule
     ctx.require("C08.a", "trace-trainer monitor sites", nsites, 28)
 
+    # ---------------- (f) delayed views interpolate traces by analytic decay from the *older* sample
+    for cname in ("NearestTraceReducer", "CumulativeTraceReducer"):
+        f = P.cls(cname).methods["interpolate"]
+        ctx.touch(f)
+        calls = [x for x in P.calls_in(f) if dotted(x.func) == "interp_expdecay"]
+        ok = len(calls) == 1 and [getattr(a_, "id", None) for a_ in calls[0].args[:4]] == ["prev_data", "next_data", "sample_at", "step_time"] \
+            and dotted(kwarg(calls[0], "time_constant")) == "self.time_constant"
+        ctx.ob("C08.f", f"{cname}.interpolate = interp_expdecay(prev, next, sample_at, dt, time_constant=own)", ok,
+               "" if ok else "between steps the delayed trace is not prev * exp(-elapsed/tau): the pair term for off-grid delays is wrong", f.where)
+    specs.compare(ctx, "C08.f", "interp_expdecay = prev * exp(-sample_at / tau)", P.fn("interp_expdecay", module="functional.interpolation"),
+                  "prev_data * torch.exp(-sample_at / time_constant)", source="functional/interpolation.py")
     # ---------------- (d) eligibility trace and reward
     et = P.cls("EligibilityTraceReducer")
     init = et.methods["__init__"]
